@@ -184,7 +184,15 @@ func sameStrMap(a, b map[string]string) (string, bool) {
 func (s *svcSim) doOp() (string, error) {
 	t := s.c.T
 	s.redo, s.redoIdempotent = nil, false
-	switch t.Pick("svc-op", 8, 8, 3, 3, 3, 3, 2, 2, 2, 2) {
+	switch t.Pick("svc-op", 8, 8, 3, 3, 3, 3, 2, 2, 2, 2, 3, 2) {
+	case 10: // reading the secrets (what signing a transaction does): not a mutation, memory and disk stay as they are
+		name := s.pickName()
+		err := s.svc.ViewSecrets(name, s.pickPw(name), func(w wallet.Wallet) error { _ = w.Seed(); return nil })
+		return "view-secrets " + name, err
+	case 11:
+		name := s.pickName()
+		_, _, err := s.svc.GetWalletSeed(name, s.pickPw(name))
+		return "get-seed " + name, err
 	case 0: // create
 		typ := []string{wallet.WalletTypeDeterministic, wallet.WalletTypeBip44, wallet.WalletTypeXPub, wallet.WalletTypeCollection}[t.Pick("wtype", 5, 4, 2, 1)]
 		opts := wallet.Options{Type: typ, Label: fmt.Sprintf("label-%d", t.Int("label", 4))}
